@@ -24,6 +24,21 @@ def n2 (v : Nat → Text → Verdict) : Nat → Text → Verdict := fun r x => n
 theorem norm2_apply (w : Verdict) (t : Text) : (norm2 w).apply t = t := by
   cases w <;> rfl
 
+/-- A 2.x rail list shows every rail the same text (nothing rewrites it). -/
+theorem gate_n2_text (v : Nat → Text → Verdict) : ∀ (rails : List Nat) (t : Text), ∀ c ∈ gate (n2 v) rails t, c.2 = t
+  | [], _ => by simp [gate]
+  | r :: rs, t => by
+    intro c hc
+    by_cases h : (n2 v r t).continues = true
+    · simp only [gate, h, if_true] at hc
+      rcases List.mem_cons.mp hc with rfl | hc
+      · rfl
+      · have := gate_n2_text v rs ((n2 v r t).apply t) c hc
+        rw [this]
+        exact norm2_apply (v r t) t
+    · simp [gate, h] at hc
+      rw [hc]
+
 def stopStepsV2 (cfg : Cfg) (k : Kind) : Option Verdict → List Step
   | some .reject => if cfg.exc then [.exc k] else [.utter refusal]
   | _ => []
